@@ -383,8 +383,20 @@ def o10(tier):
     return _shared(lambda: memobs.memory_rollback(tier, 'O10', 'O10'), 'O10', 'contract K2 (shared with C09-O4): on the memory backend the rollback restores exactly the pre-commit state of the group')
 
 
+def o11(tier):
+    """contract K2 on SQLite, column / key level"""
+    from props import C09
+    return _shared(lambda: C09.sqlite_columns(tier), 'O11', 'contract K2 (shared with C09-O2): the SQLite rollback writes back every snapshotted column and re-keys nothing (OpenMLS rows keep their MlsCodec keys), so the pending proposals / secrets the winning commit needs are there after the rollback')
+
+
+def o12(tier):
+    """snapshot bookkeeping across restarts: the manager used by the race resolution equals its reference model, hydration included"""
+    from props import C20
+    return _shared(lambda: C20.o1(tier), 'O12', 'shared with C20-O1: the snapshot manager (queue, storage, hydration after a restart) equals the reference model after every step, so the snapshot the MIP-03 comparison looks at is the one of the applied commit, not a timestamp-less duplicate')
+
+
 def run(tier, seed, only=None):
-    obs = [('O1', o1), ('O2', o2), ('O4', o4), ('O5', o5), ('O6', o6), ('O7', o7), ('O8', o8), ('O9', o9), ('O10', o10)]
+    obs = [('O1', o1), ('O2', o2), ('O4', o4), ('O5', o5), ('O6', o6), ('O7', o7), ('O8', o8), ('O9', o9), ('O10', o10), ('O11', o11), ('O12', o12)]
     out = []
     for k, f in obs:
         if only and k not in only:
